@@ -6,6 +6,7 @@
 #include <memory>
 
 #include "zoo/zoo.hpp"
+#include "envctl.hpp"
 
 namespace {
    vf::Report rep;
@@ -15,6 +16,9 @@ namespace {
    void sweep(int rot, int history)
    {
       using namespace zoo;
+      // heap-address personality of this sweep: the address-ordered lookup tables see the same requests in another order
+      vf::env::set_alloc(vf::env::Alloc((rot + history) % 4));
+      struct Reset { ~Reset() { vf::env::set_alloc(vf::env::Alloc::Malloc); vf::env::arena_reset(); } } reset;
       ipr::impl::Lexicon lex;
       ipr::impl::Translation_unit unit{ lex };
       if (history == 1)
@@ -67,6 +71,7 @@ int main(int argc, char** argv)
 {
    opt = vf::parse_options(argc, argv);
    vf::install_crash_handler(opt, "C02");
+   (void) zoo::rows();            // built once, with the default allocator, before any address personality is selected
    verbose = not opt.replay.empty();
    if (verbose) {
       auto ops = vf::json_int_array(vf::slurp(opt.replay), "ops");
